@@ -693,4 +693,52 @@ theorem concat_didx_eq {B L N U s n hbv s' n' hbv' t t' : Nat} (hL : 0 < L) (hn 
   have r4 := Nat.div_add_mod t' (L * n)
   rw [← r3, ← r4, c, hm]
 
+/-- inplace_add into a batch-1 destination (slice_bw on an axis at or beyond the depth) -/
+theorem inplaceAdd_fold_idx {V B t0 b : Nat} (ht0 : t0 < V) (hb : b < B) :
+    let m := inplaceAddMoves V (max B 1) ((if (1 : Nat) = 1 then 0 else 1) * V) ((if B = 1 then 0 else 1) * V)
+    let m1 := inplaceAddMoves V (max 1 1) ((if (1 : Nat) = 1 then 0 else 1) * V) ((if (1 : Nat) = 1 then 0 else 1) * V)
+    m.count = B * V ∧ m1.count = V ∧ m.didx (t0 + V * b) = m1.didx t0 ∧ m.sidx (t0 + V * b) = m1.sidx t0 + V * b := by
+  intro m m1
+  have hV : 0 < V := by omega
+  have e1 : (t0 + V * b) % V = t0 := by rw [Nat.add_mul_mod_self_left, Nat.mod_eq_of_lt ht0]
+  have e2 : (t0 + V * b) / V = b := by rw [Nat.add_mul_div_left _ _ hV, Nat.div_eq_of_lt ht0]; omega
+  have e3 : t0 % V = t0 := Nat.mod_eq_of_lt ht0
+  have e4 : t0 / V = 0 := Nat.div_eq_of_lt ht0
+  refine ⟨by simp only [m, inplaceAddMoves]; rw [Nat.max_eq_left (by omega)], by simp [m1, inplaceAddMoves], ?_, ?_⟩
+  · simp only [m, m1, inplaceAddMoves, if_true, Nat.zero_mul, Nat.mul_zero, Nat.zero_add, e1, e3]
+  · simp only [m, m1, inplaceAddMoves, if_true, Nat.zero_mul, Nat.mul_zero, Nat.zero_add, e1, e2, e3, e4]
+    by_cases h1 : B = 1
+    · subst h1; have : b = 0 := by omega
+      subst this; simp
+    · simp only [h1, if_false, Nat.one_mul]; ring
+
+/-- batch_pick_bw: sample `b` of `gy` goes where the one-sample call with the single id `ids[b]` puts it -/
+theorem batchPickBw_fold_idx {V t0 b : Nat} {ids : List Nat} (ht0 : t0 < V) :
+    let m := (batchPickMoves ids.length V ids).swap
+    let m1 := (batchPickMoves 1 V [ids.getD b 0]).swap
+    m.count = ids.length * V ∧ m1.count = 1 * V ∧ m.didx (t0 + V * b) = m1.didx t0 ∧ m.sidx (t0 + V * b) = m1.sidx t0 + V * b := by
+  intro m m1
+  have hV : 0 < V := by omega
+  have e1 : (t0 + V * b) % V = t0 := by rw [Nat.add_mul_mod_self_left, Nat.mod_eq_of_lt ht0]
+  have e2 : (t0 + V * b) / V = b := by rw [Nat.add_mul_div_left _ _ hV, Nat.div_eq_of_lt ht0]; omega
+  have e3 : t0 % V = t0 := Nat.mod_eq_of_lt ht0
+  have e4 : t0 / V = 0 := Nat.div_eq_of_lt ht0
+  refine ⟨rfl, rfl, ?_, ?_⟩
+  · simp only [m, m1, Moves.swap, batchPickMoves, e1, e2, e3, e4]; simp
+  · simp only [m, m1, Moves.swap, batchPickMoves]
+
+/-- batch_slice_bw: sample `b` of `gy` goes where the one-sample call with offset `offset + b` puts it -/
+theorem batchSliceBw_fold_idx {V B off t0 b : Nat} (hfit : V * (off + b) < W) :
+    let m := batchSliceBwMoves V B off
+    let m1 := batchSliceBwMoves V 1 (off + b)
+    m.count = B * V ∧ m1.count = 1 * V ∧ m.didx (t0 + V * b) = m1.didx t0 ∧ m.sidx (t0 + V * b) = m1.sidx t0 + V * b := by
+  intro m m1
+  have h1 : mul32 V (off + b) = V * (off + b) := Nat.mod_eq_of_lt hfit
+  have h2 : mul32 V off = V * off := Nat.mod_eq_of_lt (by
+    calc V * off ≤ V * (off + b) := Nat.mul_le_mul_left _ (by omega)
+      _ < W := hfit)
+  refine ⟨by simp only [m, batchSliceBwMoves]; ring, by simp only [m1, batchSliceBwMoves]; ring, ?_, ?_⟩
+  · simp only [m, m1, batchSliceBwMoves, h1, h2]; ring
+  · simp only [m, m1, batchSliceBwMoves]
+
 end Primitiv.Move
